@@ -214,7 +214,9 @@ package py
 //@   ensures ni: !isSmallInt(other) ==> r == NotImplemented && err == nil
 //@   ensures shape: isSmallInt(other) ==> err == nil && is(r, *List) && fresh(r.(*List)) && r.(*List) != l
 //@   ensures src: l.Items == old(l.Items) && (forall k in [0, len(l.Items)): l.Items[k] == old(l.Items[k]))
+//@   ensures nn: err == nil ==> r != nil
 
 //@ func (*List).M__imul__(a, other) (r, err)
 //@   modifies a.Items
 //@   ensures inplace: isSmallInt(other) ==> err == nil && is(r, *List) && r.(*List) == a
+//@   ensures nn: err == nil ==> r != nil
